@@ -24,6 +24,9 @@ def canon(scn):
         d["slow"] = scn["slow"]
     if scn.get("api", "play_many") != "play_many":
         d["api"] = scn["api"]
+    for k in ("nofile", "ply_limit"):
+        if scn.get(k) is not None:
+            d[k] = scn[k]
     if scn.get("pause"):
         d["pause"] = scn["pause"]
         d["compress"] = scn.get("compress", 1)
